@@ -105,11 +105,46 @@ claim('C20', 'other',
       'L^T L = M, Penrose equations and option meanings are decided by the bounded stand-in over matrices of size 1..8, every rank, spectra over 16 orders of magnitude.',
       'trusted: npvc encoder; z3; cholesky / eigh / np.cov / make_spd_matrix / PCA / LDA contracts (assumed)', 'case analysis + shape-level symbolic execution; ' + BOUNDED,
       ['value-level conversion identities are not yet discharged deductively (Lean lemmas exist, see lean/)'])
-for _p in ('C10', 'C11', 'C13', 'C14', 'C15', 'C19'):
-  NOT_YET[_p] = 'deductive obligations specific to this property are not built yet (the fit bodies are under shape-level contract in C03/C17; a bounded stand-in exists in standins/); see DESIGN.md'
-META['C11'] = dict(level='other', level_text='', level_note='', explanation='wip', assumptions=[], technique=TECH)
-META['C10'] = dict(level='other', level_text='', level_note='', explanation='wip', assumptions=[], technique=TECH)
-META['C15'] = dict(level='other', level_text='', level_note='', explanation='wip', assumptions=[], technique=TECH)
-META['C13'] = dict(level='other', level_text='', level_note='', explanation='wip', assumptions=[], technique=TECH)
-META['C14'] = dict(level='other', level_text='', level_note='', explanation='wip', assumptions=[], technique=TECH)
-META['C19'] = dict(level='other', level_text='', level_note='', explanation='wip', assumptions=[], technique=TECH)
+claim('C10', 'other',
+      'deductive, on the real fit bodies: NCA.fit / MLKR.fit hand scipy.optimize.minimize THEIR OWN _loss_grad_lbfgs / _loss (sign -1 for NCA, same-class mask from the prepared labels, (X, y) for MLKR), jac=True, '
+      'started at the transformation returned by _initialize_components, and store the optimiser result reshaped to (k, d); LMNN: an iterate is accepted only when its objective is strictly lower than the last accepted one '
+      '(loop invariant, hence accepted iterates are non-increasing), the returned L is the last accepted iterate, and with max_iter = 0 it is exactly the initialisation. '
+      'That the value/gradient pair equals the documented objective and its derivative, and "never worse than the start", are decided by the bounded stand-in (independent O(n^2) objective + central differences).',
+      'trusted: npvc encoder; z3; scipy L-BFGS-B (an assumed contract: returns an x of the shape of x0; with maxiter=0 it still performs one iteration, so the zero-iteration clause is stated for LMNN only); loss formulas run-time only',
+      'ghost call log on the optimiser call + LMNN loop invariant / at-break clauses; ' + BOUNDED,
+      ['objective / gradient formulas of NCA, MLKR, LMNN are checked at run time only (bounded, finite differences)', 'scipy.optimize.minimize is external'])
+claim('C11', 'other',
+      'deductive, on the real _BaseITML._fit body for every number of sweeps and every number of constraints: inductive invariants of the three loops -- the iterate A is positive definite '
+      '(rank-one update with 1 + beta v^T A v > 0: Lean rank_one_posDef / posDef_quad_pos), every dual variable lambda_i >= 0, every slack-adjusted bound > 0 -- under the ghost hypotheses of the property '
+      '(non-collapsed pairs, gamma > 0, positive bounds); the returned components_ come from that PD matrix. The inverse identity, KKT at convergence and the prior fixpoint are decided by the bounded stand-in.',
+      'trusted: npvc encoder; z3 (nonlinear real arithmetic); A-real; matrix facts are Lean/Mathlib theorems transcribed into SMT axioms; covariance prior PD is a ghost hypothesis (full-rank data)',
+      'loop invariants proved by induction on the real loop bodies; ' + BOUNDED,
+      ['A-real: floats as reals', 'the inverse identity M^-1 - M0^-1 = sum y_i lambda_i v_i v_i^T and KKT-at-convergence are bounded only'])
+claim('C13', 'other',
+      'deductive, on the real _BaseSDML._fit body: the matrix handed to graphical_lasso is prior_inv + balance_param * (D^T * y) D with D the within-pair differences of the prepared pairs, alpha = sparsity_param; '
+      'a matrix is returned only when the solver did not raise and the result is finite with no negative eigenvalue -- every other path leaves with RuntimeError (never a NaN/indefinite M). '
+      'Optimality of the solver output (objective vs an independent solution) is decided by the bounded stand-in.',
+      'trusted: npvc encoder; z3; scikit-learn graphical_lasso (external: its optimality is not verified, only how it is called and vetted); pinvh / eigh contracts (assumed)',
+      'ghost call log on the solver call + exception-flow case analysis; ' + BOUNDED,
+      ['graphical_lasso minimises its documented objective (external, bounded comparison only)'])
+claim('C14', 'other',
+      'deductive, on the real _BaseMMC._fit_full body for any number of cycles and projections: whenever a projection sweep is accepted the iterate is PSD (eigenvalue clipping, Lean clip_psd) and its similarity sum is '
+      'within the 1% tolerance of the budget t = (initial similarity sum)/100; A_old -- the matrix returned -- is only overwritten by such an iterate, and iterations start from the matrix of _initialize_metric_mahalanobis. '
+      'The diagonal variant (non-negative diagonal, ValueError instead of NaN), objective improvement and the numeric budget are decided by the bounded stand-in only.',
+      'trusted: npvc encoder; z3; A-real; eigh contract (assumed); Lean clip_psd transcribed',
+      'loop invariants (outer/inner) proved by induction on the real body; ' + BOUNDED,
+      ['A-real: floats as reals', '"the last feasible iterate improved the dissimilar-pair objective" is bounded only'])
+claim('C15', 'other',
+      'deductive, on the real _BaseSCML._fit loop at a generic coordinate for every iteration count: the dual-averaging weights w are >= 0 after every update (soft-threshold then max(0, .)), the best checkpoint best_w is one of them, '
+      'and _components_from_basis_weights builds a (<= d, d) transformation with a warning exactly in the low-rank case; M = sum w_i b_i b_i^T PSD follows by Lean basis_comb_psd. '
+      'Which checkpoint is best, reproducibility for a seed and unit-norm generated bases are decided by the bounded stand-in (independent re-run of the documented scheme).',
+      'trusted: npvc encoder; z3; A-real; rng / KMeans / LDA contracts (assumed)',
+      'loop invariant + local invariant on the real loop; ' + BOUNDED,
+      ['the checkpoint choice and the stochastic scheme itself are replayed at run time only (bounded)'])
+claim('C19', 'other',
+      'deductive (translation clause): a ghost abstract domain types every array as moving-with-the-points / invariant / unknown (rules: pos - pos = inv, cov / pairwise distance of pos = inv, ...; see npvc/ttype.py); '
+      'on the real fit bodies of Covariance, ITML, MMC, SDML, LSML, SCML the stored components_ types as invariant on every path, loops included (the type is part of the loop-stability check). '
+      'Translation for RCA/LFDA/LMNN/NCA/MLKR, swap, permutation, rotation and scaling are decided by the bounded stand-in (metamorphic runs of the real fits).',
+      'trusted: npvc encoder; soundness of the typing rules (elementary algebra, stated in npvc/ttype.py); A-real (floating-point translation changes rounding: the stand-in uses tolerances)',
+      'ghost type system over the symbolic execution of the real fits; ' + BOUNDED,
+      ['swap / permutation / rotation / scaling relations are metamorphic run-time checks only (bounded)', 'translation for the five L-parameterised learners is bounded only'])
